@@ -26,6 +26,7 @@ import (
 	"github.com/pingcap/kvproto/pkg/metapb"
 	"github.com/pingcap/kvproto/pkg/pdpb"
 	"sync"
+	"sync/atomic"
 )
 
 type opKind int
@@ -433,6 +434,68 @@ func serverPhase(R *res.Result, rounds int) {
 			}(g)
 		}
 		wg.Wait()
+		// a split request whose region id is the last id of the window while the extension needed for its peer ids is
+		// refused (the leader record does not carry this member's value at that moment): the request may fail, but a
+		// successful answer must carry fresh ids only
+		func() {
+			ctx, cancel := context.WithTimeout(context.Background(), 20*time.Second)
+			defer cancel()
+			b := bound()
+			if b == 0 {
+				return
+			}
+			for k := 0; k < 1100; k++ {
+				resp, err := s.AllocID(ctx, &pdpb.AllocIDRequest{Header: x.Header()})
+				if err != nil || resp.GetHeader().GetError() != nil {
+					return
+				}
+				note(resp.GetId(), fmt.Sprintf("AllocID term %d", term), 0)
+				if resp.GetId() == b-1 {
+					break
+				}
+				if resp.GetId() >= b {
+					b = bound()
+				}
+			}
+			lp := s.GetMember().GetLeaderPath()
+			r, err := s.GetClient().Get(ctx, lp)
+			if err != nil || len(r.Kvs) == 0 {
+				return
+			}
+			orig, lease := string(r.Kvs[0].Value), clientv3.LeaseID(r.Kvs[0].Lease)
+			if _, err := s.GetClient().Put(ctx, lp, "verif: some other member", clientv3.WithLease(lease)); err != nil {
+				return
+			}
+			region := &metapb.Region{Id: 2, Peers: []*metapb.Peer{{Id: 3, StoreId: 1}, {Id: 4, StoreId: 2}, {Id: 5, StoreId: 3}}}
+			var got []uint64
+			ok := false
+			if resp, err := s.AskBatchSplit(ctx, &pdpb.AskBatchSplitRequest{Header: x.Header(), Region: region, SplitCount: 1}); err == nil && resp.GetHeader().GetError() == nil {
+				ok = true
+				for _, ids := range resp.GetIds() {
+					got = append(append(got, ids.GetNewRegionId()), ids.GetNewPeerIds()...)
+				}
+			} else if r1, err1 := s.AskSplit(ctx, &pdpb.AskSplitRequest{Header: x.Header(), Region: region}); err1 == nil && r1.GetHeader().GetError() == nil {
+				ok = true
+				got = append(append(got, r1.GetNewRegionId()), r1.GetNewPeerIds()...)
+			}
+			s.GetClient().Put(ctx, lp, orig, clientv3.WithLease(lease))
+			mu.Lock()
+			R.Count("server:split-with-refused-extension")
+			mu.Unlock()
+			if ok {
+				for _, v := range got {
+					if v == 0 {
+						R.Violate("C04:zero-id-in-successful-split-answer", fmt.Sprintf("a split request whose peer ids needed a window extension that etcd refused was answered successfully with ids %v", got), map[string]interface{}{"ids": got, "term": term})
+						break
+					}
+				}
+				for _, v := range got {
+					if v != 0 {
+						note(v, fmt.Sprintf("split with refused extension term %d", term), 0)
+					}
+				}
+			}
+		}()
 		// every id handed out so far is at most the bound stored now
 		b := bound()
 		mu.Lock()
@@ -447,6 +510,115 @@ func serverPhase(R *res.Result, rounds int) {
 		x.Close()
 	}
 	R.CountN("server:ids", len(seen))
+}
+
+// rebaseRaceProbe: Rebase (what a new leader calls) is stopped right after etcd applied its window reservation and
+// before it returns; meanwhile Alloc calls arrive on the same allocator (background jobs of a freshly elected PD) and use
+// up the current window. Whatever the interleaving, every id must be unique, increasing per caller, at most the stored
+// bound, and a later instance must start above all of them.
+func rebaseRaceProbe(e *etcdx.Etcd, admin *clientv3.Client, R *res.Result) {
+	root := "/c04/rebase-race"
+	ctx, cancel := context.WithTimeout(context.Background(), 30*time.Second)
+	defer cancel()
+	if _, err := admin.Put(ctx, path.Join(root, "leader"), member(1)); err != nil {
+		return
+	}
+	cli, ctl, err := e.NewClient()
+	if err != nil {
+		return
+	}
+	a := id.NewAllocator(cli, root, member(1))
+	bound := func() uint64 {
+		r, err := admin.Get(ctx, path.Join(root, "alloc_id"))
+		if err != nil || len(r.Kvs) == 0 {
+			return 0
+		}
+		v, _ := typeutil.BytesToUint64(r.Kvs[0].Value)
+		return v
+	}
+	seen := map[uint64]bool{}
+	var last uint64
+	bad := false
+	var mu sync.Mutex
+	note := func(v uint64, who string) {
+		b := bound() // read after the id was returned: the bound never decreases, so it is at least the bound at return time
+		mu.Lock()
+		defer mu.Unlock()
+		if bad {
+			return
+		}
+		switch {
+		case seen[v]:
+			bad = true
+			R.Violate("C04:duplicate-id:alloc-racing-with-rebase", fmt.Sprintf("id %d handed out twice (%s)", v, who), map[string]interface{}{"id": v})
+		case v > b:
+			bad = true
+			R.Violate("C04:id-above-stored-bound:alloc-racing-with-rebase", fmt.Sprintf("id %d handed out (%s) while the stored bound is %d; Rebase had been stopped between the commit of its reservation and its return while Alloc calls used up the window", v, who, b),
+				map[string]interface{}{"id": v, "bound": b, "scenario": "Alloc; Rebase parked after its transaction was applied; 1200 x Alloc on the same allocator; Rebase released; 1500 x Alloc; new instance Alloc"})
+		case v <= last:
+			bad = true
+			R.Violate("C04:id-not-increasing:alloc-racing-with-rebase", fmt.Sprintf("id %d handed out after %d (%s)", v, last, who), map[string]interface{}{"id": v, "last": last})
+		}
+		seen[v] = true
+		last = v
+	}
+	v, err := a.Alloc()
+	if err != nil {
+		return
+	}
+	note(v, "first Alloc")
+	ctl.SetNext(etcdx.ParkAfter)
+	rdone := make(chan error, 1)
+	go func() { rdone <- a.Rebase() }()
+	select {
+	case <-ctl.Parked():
+	case <-rdone:
+		R.Notes = append(R.Notes, "rebase-race probe: Rebase did not reach its transaction")
+		return
+	case <-time.After(10 * time.Second):
+		return
+	}
+	adone := make(chan struct{})
+	var progress int32
+	go func() {
+		defer close(adone)
+		for k := 0; k < 1200; k++ {
+			v, err := a.Alloc()
+			if err != nil {
+				return
+			}
+			atomic.AddInt32(&progress, 1)
+			note(v, "Alloc during/after the stopped Rebase")
+		}
+	}()
+	time.Sleep(300 * time.Millisecond)
+	if atomic.LoadInt32(&progress) > 0 { // Alloc is not waiting for the Rebase in progress: let it use up its window first
+		select {
+		case <-adone:
+		case <-time.After(10 * time.Second):
+		}
+	}
+	ctl.Release(etcdx.Pass)
+	<-rdone
+	<-adone
+	for k := 0; k < 1500; k++ {
+		v, err := a.Alloc()
+		if err != nil {
+			break
+		}
+		note(v, "Alloc after Rebase returned")
+	}
+	cli2, _, err := e.NewClient()
+	if err != nil {
+		return
+	}
+	b := id.NewAllocator(cli2, root, member(1))
+	if err := b.Rebase(); err == nil {
+		if v, err := b.Alloc(); err == nil {
+			note(v, "first Alloc of the next instance")
+		}
+	}
+	R.Count("rebase-race:probed")
 }
 
 func main() {
@@ -540,6 +712,7 @@ func main() {
 		panic(err)
 	}
 	if *replay == "" {
+		rebaseRaceProbe(e, admin, R)
 		serverPhase(R, *serverRounds)
 	}
 	R.CaseFiles = cf.Files
